@@ -154,8 +154,14 @@ def draw_functional(cs, sc):
         spec["method"] = cs.choice(["mhcustom", "mh", "_dummy1d"], "m")
     elif F == "jac":
         spec["product"] = cs.choice(["mv", "rmv", "fullmatrix", "mm", "rmm", "H.mv", "solve"], "prod")
+        if spec["product"] == "solve":
+            spec["solve_method"] = cs.choice(["bicgstab", "cg", "exactsolve", "custom_exactsolve"], "jsm")
+        spec["keep_op"] = cs.bool("keep_op", 1, 2)      # the caller keeps the operator and uses it again
     elif F == "hess":
-        spec["product"] = cs.choice(["mv", "fullmatrix", "rmv"], "prod")
+        spec["product"] = cs.choice(["mv", "fullmatrix", "rmv", "solve"], "prod")
+        if spec["product"] == "solve":
+            spec["solve_method"] = cs.choice(["cg", "bicgstab", "exactsolve", "custom_exactsolve"], "jsm")
+        spec["keep_op"] = cs.bool("keep_op", 1, 2)
     spec["knobs"] = draw_knobs(cs, spec)
     return spec
 
@@ -421,11 +427,17 @@ def run_functional(env, spec):
             y = xi.mcquad(f, lp, x0, fparams=(s,), pparams=(env.s2,), method=m, nsamples=5, lb=-2.0, ub=2.0)
         return (y * wts).sum()
     if F in ("jac", "hess"):
-        yv = env.y0.clone().requires_grad_()
-        if F == "jac":
-            op = xg.jac(get_fcn(env, "f_jac"), params=(yv, s), idxs=0)
+        kept = getattr(env, "kept_op", None) if spec.get("keep_op") else None
+        if kept is not None:
+            op = kept          # an operator the caller keeps across calls
         else:
-            op = xg.hess(get_fcn(env, "f_hess"), params=(yv, s), idxs=0)
+            yv = env.y0.clone().requires_grad_()
+            if F == "jac":
+                op = xg.jac(get_fcn(env, "f_jac"), params=(yv, s), idxs=0)
+            else:
+                op = xg.hess(get_fcn(env, "f_hess"), params=(yv, s), idxs=0)
+            if spec.get("keep_op"):
+                env.kept_op = op
         v = torch.linspace(1.0, 2.0, n, dtype=AC.DT)
         p = spec["product"]
         if p == "mv":
@@ -441,7 +453,7 @@ def run_functional(env, spec):
         elif p == "H.mv":
             r = op.H.mv(v)
         else:
-            r = xl.solve(op, v.unsqueeze(-1), method="bicgstab")
+            r = xl.solve(op, v.unsqueeze(-1), method=spec.get("solve_method", "bicgstab"))
         return r.sum()
     # ---- LinearOperator family
     A = env.linop
